@@ -95,7 +95,8 @@ def _img_search(pid, tier, findings):
 
 
 IMG_RELEVANT = {
-    "C16": lambda c: c["kind"] == "fixture" or (c["kind"] == "valid" and not OI.is_compressed(c)),
+    "C16": lambda c: c["kind"] == "fixture" or (c["kind"] == "valid" and not OI.is_compressed(c))
+                     or (c["kind"] == "option" and c["fmt"] in ("max", "hrs") and "expect" in c),
     "C17": lambda c: c["kind"] == "fixture" or (c["kind"] == "valid" and OI.is_compressed(c)),
     "C18": lambda c: c["kind"] in ("valid", "fixture", "option"),
     "C19": lambda c: True,
